@@ -211,6 +211,8 @@ fn http_sobs(status: u16, body: &str) -> Option<String> {
     });
     let client = reqwest::blocking::Client::builder().no_proxy().timeout(std::time::Duration::from_secs(10)).build().ok()?;
     let r = graphql_client::reqwest::post_graphql_blocking::<HttpQ, _>(&client, format!("http://127.0.0.1:{}/graphql", port), json!({}));
+    // should the client never have connected, unblock the listener so that the thread can finish
+    let _ = std::net::TcpStream::connect(("127.0.0.1", port));
     let _ = server.join();
     Some(match r {
         Ok(resp) => format!("(SOk {})", coq::json(&serde_json::to_value(&resp).unwrap())),
